@@ -478,7 +478,8 @@ Section Oracle.
           finishing (e_lz e1) = finishing (e_lz e) /\ g_base e1 = g_base e /\
           unc_size e1 = unc_size e + (pidx e1 - pidx e) /\
           pending_size (e_lz e) <= pending_size (e_lz e1) /\
-          (match_len_max p + extra_after p <= write_pos (e_lz e) - pidx e -> pending_size (e_lz e1) = pending_size (e_lz e))
+          (match_len_max p + extra_after p <= write_pos (e_lz e) - pidx e -> pending_size (e_lz e1) = pending_size (e_lz e)) /\
+          sum_abs tr1 = sum_abs tr
       end).
   Proof.
     intros W I Hcap Hp1. pose proof W as [W1 W2 W3 W4 W5 W6 W7 W8 W9 W10].
@@ -530,7 +531,7 @@ Section Oracle.
     split; [unfold quiet, pidx; lia|].
     rewrite Hpi. cbn [e_lz g_base unc_size].
     split; [lia|]. split; [lia|]. split; [exact X1|]. split; [exact X2|]. split; [exact X3|]. split; [exact X6|].
-    split; [lia|]. split; [exact X9|]. exact X10.
+    split; [lia|]. split; [exact X9|]. split; [exact X10|]. cbn [sum_abs]. exact E3.
   Qed.
 
   Lemma encode_init_spec p org e tr : wf_p p -> einv p org e tr -> cap e -> read_pos (e_lz e) = -1 ->
@@ -540,7 +541,7 @@ Section Oracle.
         einv p org e1 tr1 /\ cap e1 /\ pidx e1 = 1 /\ read_pos (e_lz e1) = 0 /\
         write_pos (e_lz e1) = write_pos (e_lz e) /\ read_limit (e_lz e1) = read_limit (e_lz e) /\
         finishing (e_lz e1) = finishing (e_lz e) /\ g_base e1 = g_base e /\ unc_size e1 = 1 /\
-        (req_flush p <= write_pos (e_lz e) -> pending_size (e_lz e1) = 0) /\ ~ quiet e
+        (req_flush p <= write_pos (e_lz e) -> pending_size (e_lz e1) = 0) /\ ~ quiet e /\ sum_abs tr1 = sum_abs tr
       else e1 = e /\ tr1 = tr /\ quiet e).
   Proof.
     intros W I Hcap Hns. pose proof W as [W1 W2 W3 W4 W5 W6 W7 W8 W9 W10].
@@ -591,7 +592,7 @@ Section Oracle.
     split; [exact Hpi|]. cbn [e_lz g_base unc_size].
     split; [lia|]. split; [exact B|]. split; [exact C|]. split; [exact D|]. split; [reflexivity|]. split; [reflexivity|].
     split; [intros Hbg; rewrite Hbig by lia; exact Hp0|].
-    unfold quiet, pidx. lia.
+    split; [unfold quiet, pidx; lia|]. cbn [sum_abs]. exact E3.
   Qed.
 
   (* the symbol loop: ends with no consultation possible; fuel = bytes left in the window + 1 *)
@@ -607,20 +608,20 @@ Section Oracle.
       pending_size (e_lz e) <= pending_size (e_lz e1) /\
       (finishing (e_lz e) = false -> read_limit (e_lz e) <= write_pos (e_lz e) - keep_after p ->
        pending_size (e_lz e1) = pending_size (e_lz e)) /\
-      (quiet e -> e1 = e /\ ps1 = ps /\ tr1 = tr)).
+      (quiet e -> e1 = e /\ ps1 = ps /\ tr1 = tr) /\ sum_abs tr1 = sum_abs tr).
   Proof.
     intros W. induction fuel as [|f IH]; intros ps e tr I Hcap Hp1 Hfuel.
     - exfalso. pose proof (ei_lz _ _ _ _ I) as [[? ?] ? ? ? ?]. pose proof (ei_ra _ _ _ _ I). unfold pidx in *. lia.
     - cbn [enc_loop1].
       eapply okor_bind; [apply (encode_symbol_spec p org ps e tr W I Hcap Hp1)|].
       intros [[[e1 ps1] tr1]|].
-      + intros (I1 & C1 & Q & X1 & X1' & X2 & X3 & X4 & X5 & X6 & X7 & X8).
+      + intros (I1 & C1 & Q & X1 & X1' & X2 & X3 & X4 & X5 & X6 & X7 & X8 & XA).
         eapply okor_weaken; [apply IH; try assumption; lia|].
-        intros [[e2 ps2] tr2] (I2 & C2 & Q2 & Y1 & Y1' & Y2 & Y3 & Y4 & Y5 & Y6 & Y7 & Y8 & Y9).
+        intros [[e2 ps2] tr2] (I2 & C2 & Q2 & Y1 & Y1' & Y2 & Y3 & Y4 & Y5 & Y6 & Y7 & Y8 & Y9 & YA).
         split; [exact I2|]. split; [exact C2|]. split; [exact Q2|]. split; [lia|]. split; [lia|].
         split; [congruence|]. split; [congruence|]. split; [congruence|]. split; [congruence|].
         split; [lia|]. split; [lia|].
-        split; [|intros Q'; contradiction].
+        split; [|split; [intros Q'; contradiction|congruence]].
         intros Hnf Hst.
         rewrite Y8 by (rewrite ?X2, ?X3, ?X4; assumption).
         apply X8. pose proof (wf_ka p W). unfold quiet in Q. lia.
@@ -639,7 +640,7 @@ Section Oracle.
       unc_size e1 = unc_size e + (pidx e1 - pidx e) /\
       (quiet e -> e1 = e /\ ps1 = ps /\ tr1 = tr) /\
       (finishing (e_lz e) = false -> read_limit (e_lz e) <= write_pos (e_lz e) - keep_after p ->
-       pending_size (e_lz e) = 0 -> pending_size (e_lz e1) = 0)).
+       pending_size (e_lz e) = 0 -> pending_size (e_lz e1) = 0) /\ sum_abs tr1 = sum_abs tr).
   Proof.
     intros W I Hcap. pose proof W as [W1 W2 W3 W4 W5 W6 W7 W8 W9 W10].
     pose proof I as [[[Ha Hb] Hc [Hd He] [Hf Hg] Hpb] [Hr1 Hr2] Hmb [Hb1 Hb2] Hh Hdict Hpx Hu HU Hfill Hsym Hchunk Horg].
@@ -647,18 +648,19 @@ Section Oracle.
     destruct (Z.eqb_spec (read_pos (e_lz e)) (-1)) as [Hns|Hst]; cbn [negb].
     - eapply okor_bind; [apply (encode_init_spec p org e tr W I Hcap Hns)|].
       intros [[ok e1] tr1]. destruct ok; cbn [negb].
-      + intros (I1 & C1 & P1 & R1 & X2 & X3 & X4 & X5 & X6 & X7 & NQ).
+      + intros (I1 & C1 & P1 & R1 & X2 & X3 & X4 & X5 & X6 & X7 & NQ & XA).
         assert (Hp0 : pidx e = 0) by (unfold pidx; lia).
         assert (Hunc : unc_size e = 0).
         { assert (g_base e = 0) by (destruct Hh; lia). rewrite logical_pidx in Hchunk. lia. }
         eapply okor_weaken.
         { apply (enc_loop1_spec p org W); try assumption; try lia.
           unfold sym_fuel. pose proof (ei_lz _ _ _ _ I1) as [[? ?] ? ? ? ?]. lia. }
-        intros [[e2 ps2] tr2] (I2 & C2 & Q2 & Y1 & Y1' & Y2 & Y3 & Y4 & Y5 & Y6 & Y7 & Y8 & Y9).
+        intros [[e2 ps2] tr2] (I2 & C2 & Q2 & Y1 & Y1' & Y2 & Y3 & Y4 & Y5 & Y6 & Y7 & Y8 & Y9 & YA).
         split; [exact I2|]. split; [exact C2|]. split; [exact Q2|]. split; [lia|]. split; [lia|].
         split; [congruence|]. split; [congruence|]. split; [congruence|]. split; [congruence|].
         split; [lia|].
         split; [intros Q; contradiction|].
+        split; [|congruence].
         intros Hnf Hs Hp. rewrite Y8; [apply X7; unfold quiet, pidx in NQ; lia|congruence|congruence].
       + intros (E1 & E2 & Q). subst e1 tr1. cbn [okor].
         split; [exact I|]. split; [exact Hcap|]. split; [exact Q|].
@@ -666,11 +668,258 @@ Section Oracle.
     - assert (Hp1 : 1 <= pidx e) by (destruct Hpx; [lia|assumption]).
       eapply okor_weaken.
       { apply (enc_loop1_spec p org W); try assumption. unfold sym_fuel, pidx in *. lia. }
-      intros [[e2 ps2] tr2] (I2 & C2 & Q2 & Y1 & Y1' & Y2 & Y3 & Y4 & Y5 & Y6 & Y7 & Y8 & Y9).
+      intros [[e2 ps2] tr2] (I2 & C2 & Q2 & Y1 & Y1' & Y2 & Y3 & Y4 & Y5 & Y6 & Y7 & Y8 & Y9 & YA).
       split; [exact I2|]. split; [exact C2|]. split; [exact Q2|]. split; [lia|]. split; [lia|].
       split; [exact Y2|]. split; [exact Y3|]. split; [exact Y4|]. split; [exact Y5|]. split; [exact Y6|].
-      split; [exact Y9|].
+      split; [exact Y9|]. split; [|exact YA].
       intros Hnf Hs Hp. rewrite Y8; assumption.
+  Qed.
+
+
+  (* ---- the "steady" phase: write calls, no flush in progress ------------------------------- *)
+  Definition steady (p : lzp) (e : encd) : Prop := read_limit (e_lz e) <= write_pos (e_lz e) - keep_after p.
+
+  Record phi (p : lzp) (e : encd) : Prop := mkPhi {
+    ph_fin : finishing (e_lz e) = false;
+    ph_sq : steady p e \/ quiet e;
+    ph_pend : 0 < pending_size (e_lz e) -> read_ahead e = -1;
+    ph_G : write_pos (e_lz e) = buf_size p -> buf_size p - keep_after p <= read_limit (e_lz e)
+  }.
+
+  (* a consultation in the steady phase finds no pending position (fill_window has re-processed them) *)
+  Lemma phi_consult_nopend p org e tr : wf_p p -> einv p org e tr -> phi p e -> ~ quiet e ->
+    steady p e /\ pending_size (e_lz e) = 0.
+  Proof.
+    intros W I [Hfin Hsq Hpend HG] NQ. pose proof W as [W1 W2 W3 W4 W5 W6 W7 W8 W9 W10].
+    pose proof I as [[[Ha Hb] Hc [Hd He] [Hf Hg] Hpb] [Hr1 Hr2] Hmb [Hb1 Hb2] Hh Hdict Hpx Hu HU Hfill Hsym Hchunk Horg].
+    assert (Hst : steady p e) by (destruct Hsq; [assumption|contradiction]).
+    split; [exact Hst|].
+    destruct (Z.eq_dec (pending_size (e_lz e)) 0) as [Hz|Hz]; [exact Hz|exfalso].
+    assert (Hp : 0 < pending_size (e_lz e)) by lia.
+    pose proof (Hpend Hp) as Hra. unfold steady, quiet, pidx, Kp in *.
+    destruct (HU Hp) as [[K|K]|[[K1 K2]|K]]; lia.
+  Qed.
+
+  (* fill_window as the write loops use it (the ghost base follows a window move) *)
+  Definition after_fill (e : encd) (d1 : lzd) : encd :=
+    mkEncd d1 (read_ahead e) (unc_size e) (rc_full e) (g_base e + (read_pos (e_lz e) - read_pos d1)).
+
+  Lemma fill_step p org e tr n : wf_p p -> einv p org e tr -> phi p e -> 0 <= n <= I32_MAX ->
+    okor (fill_window p (e_lz e) n tr) (fun r =>
+      let '(d1, used, tr1) := r in
+      let e1 := after_fill e d1 in
+      einv p org e1 tr1 /\ phi p e1 /\ 0 <= used <= n /\
+      logical_pos e1 = logical_pos e /\ unc_size e1 = unc_size e /\ rc_full e1 = rc_full e /\
+      write_pos (e_lz e1) - pidx e1 = write_pos (e_lz e) - pidx e + used /\
+      g_base e1 + write_pos (e_lz e1) = g_base e + write_pos (e_lz e) + used /\
+      (quiet e -> 0 < n -> 1 <= used) /\
+      (used = 0 -> 0 < n -> write_pos (e_lz e1) = buf_size p /\ d1 = e_lz e) /\
+      sum_abs tr1 = sum_abs tr /\ sum_fill tr1 = sum_fill tr + used).
+  Proof.
+    intros W I F Hn. pose proof W as [W1 W2 W3 W4 W5 W6 W7 W8 W9 W10].
+    pose proof I as [[[Ha Hb] Hc [Hd He] [Hf Hg] Hpb] [Hr1 Hr2] Hmb [Hb1 Hb2] Hh Hdict Hpx Hu HU Hfill Hsym Hchunk Horg].
+    pose proof F as [Hfin Hsq Hpend HG].
+    eapply okor_weaken; [apply (fill_window_spec p (e_lz e) n tr W (ei_lz _ _ _ _ I) Hfin Hn)|].
+    intros [[d1 used] tr1] (off & L1 & F1 & O1 & O2 & O3 & R1 & U1 & U2 & Wp1 & Rl1 & Pcase & Acc).
+    injection Acc as E1 E2 E3 E4.
+    pose proof L1 as [[Ha1 Hb1'] Hc1 [Hd1 He1] [Hf1 Hg1] Hpb1].
+    assert (Hbase : g_base e + (read_pos (e_lz e) - read_pos d1) = g_base e + off) by lia.
+    assert (Hpi : pidx (after_fill e d1) = pidx e - off) by (unfold pidx, after_fill; cbn [e_lz read_ahead]; lia).
+    assert (Hoff : off = 0 \/ (64 <= off /\ dict_size p <= pidx e - off /\ keep_before p <= read_pos d1 + 1)).
+    { destruct O3 as [[? ?]|(? & ? & ?)]; [left; assumption|right]. unfold pidx. lia. }
+    split.
+    { constructor; unfold after_fill; cbn [e_lz read_ahead unc_size g_base rc_full]; fold (after_fill e d1); try rewrite Hpi.
+      - exact L1.
+      - destruct Hoff as [?|(? & ? & ?)]; unfold pidx in *; lia.
+      - exact Hmb.
+      - rewrite Hbase. split; [lia|]. rewrite Z.add_mod by lia. rewrite Hb2, O2. reflexivity.
+      - rewrite Hbase. destruct Hoff as [?|(? & ? & ?)]; [|right; lia]. subst off. rewrite Z.add_0_r.
+        destruct Hh; [left; assumption|right; lia].
+      - rewrite Hbase. destruct Hoff as [?|(? & ? & ?)]; [|right; lia]. subst off. rewrite Z.add_0_r, Z.sub_0_r. exact Hdict.
+      - destruct Hoff as [?|(? & ? & ?)]; [|right; lia]. subst off. rewrite Z.sub_0_r.
+        destruct Hpx; [left; lia|right; assumption].
+      - exact Hu.
+      - intros Hp. destruct Pcase as [[Pq Pn]|(P1 & P2 & P3 & P4)].
+        + right; left. split; [apply Hpend; lia|]. lia.
+        + left. exact P3.
+      - rewrite E2, Hbase, Wp1, Hfill. lia.
+      - rewrite E1, E3, Hsym. unfold logical_pos, after_fill. cbn [e_lz read_ahead g_base]. lia.
+      - rewrite E4, Hchunk. unfold logical_pos, after_fill. cbn [e_lz read_ahead g_base]. lia.
+      - rewrite E4. exact Horg. }
+    split.
+    { constructor; unfold after_fill, steady, quiet; cbn [e_lz read_ahead]; fold (after_fill e d1); try rewrite Hpi.
+      - exact F1.
+      - rewrite Rl1. destruct (Z.leb_spec (keep_after p) (write_pos d1)); [left; lia|].
+        assert (off = 0) by (destruct Hoff as [?|(? & ? & ?)]; lia). subst off.
+        destruct Hsq as [Hs|Hq]; [left; unfold steady in Hs; lia|right; unfold quiet in Hq; lia].
+      - intros Hp. apply Hpend. destruct Pcase as [[Pq Pn]|(P1 & P2 & P3 & P4)]; lia.
+      - intros Hfull. rewrite Rl1. destruct (Z.leb_spec (keep_after p) (write_pos d1)); lia. }
+    rewrite Hpi. unfold after_fill. cbn [e_lz read_ahead unc_size g_base rc_full].
+    split; [lia|].
+    split; [unfold logical_pos; cbn [e_lz read_ahead g_base]; lia|].
+    split; [reflexivity|]. split; [reflexivity|].
+    split; [lia|]. split; [lia|].
+    split.
+    { intros Q Hn0. unfold quiet, pidx in Q.
+      destruct O3 as [[Ho Hlt]|(Ho & Hge & Hb3)]; [|lia].
+      (* no move: there must be room, otherwise the window is full and a drained encoder forces a move *)
+      subst off. destruct (Z.eq_dec (write_pos (e_lz e)) (buf_size p)) as [Hfullw|Hnf]; [|lia].
+      pose proof (HG Hfullw). lia. }
+    split; [|split; [exact E3|exact E2]].
+    intros Hu0 Hn0. subst used.
+    assert (Hroom : buf_size p - (write_pos (e_lz e) - off) = 0) by lia.
+    assert (off = 0) by (destruct O3 as [[? ?]|(? & ? & ?)]; lia). subst off.
+    split; [lia|].
+    (* nothing changed *)
+    destruct d1 as [rp1 rl1 fin1 wp1 pe1]. cbn [read_pos write_pos read_limit finishing pending_size] in *.
+    destruct (e_lz e) as [rp0 rl0 fin0 wp0 pe0] eqn:Ed. cbn [read_pos write_pos read_limit finishing pending_size] in *.
+    assert (rl1 = rl0).
+    { rewrite Rl1. destruct (Z.leb_spec (keep_after p) wp1); [|reflexivity].
+      assert (wp0 = buf_size p) by lia. pose proof (HG H0). destruct Hsq as [Hs|Hq]; unfold steady, quiet, pidx in *; rewrite Ed in *;
+        cbn [read_pos write_pos read_limit] in *; lia. }
+    assert (pe1 = pe0).
+    { destruct Pcase as [[Pq Pn]|(P1 & P2 & P3 & P4)]; [exact Pq|exfalso].
+      assert (Hp : 0 < pe0) by exact P1. pose proof (Hpend Hp) as Hra.
+      destruct Hsq as [Hs|Hq]; unfold steady, quiet, pidx in *; rewrite Ed in *; cbn [read_pos write_pos read_limit] in *; [|lia].
+      assert (wp0 = buf_size p) by lia.
+      destruct (HU Hp) as [[K|K]|[[K1 K2]|K]]; unfold Kp in *; cbn [read_pos write_pos read_limit pending_size] in *; lia. }
+    f_equal; try lia; congruence.
+  Qed.
+
+
+  (* ---- LZMAWriter -------------------------------------------------------------------------- *)
+  (* between two calls of an LZMAWriter *)
+  Definition l1inv (p : lzp) (org : Z) (e : encd) (tr : list wev) : Prop :=
+    einv p org e tr /\ phi p e /\ quiet e /\ sum_abs tr = 0.
+
+  Lemma l1_write_loop_spec p org : wf_p p -> forall fuel ps e len off tr,
+    l1inv p org e tr -> 0 <= len <= I32_MAX ->
+    unc_size e + (write_pos (e_lz e) - pidx e) + len <= U32_MAX ->
+    len + 1 <= Z.of_nat fuel ->
+    okor (l1_write_loop PS parse fuel p ps e len off tr) (fun r =>
+      let '(e1, ps1, off1, tr1) := r in
+      l1inv p org e1 tr1 /\ off1 = off + len /\ sum_fill tr1 = sum_fill tr + len /\
+      unc_size e1 + (write_pos (e_lz e1) - pidx e1) = unc_size e + (write_pos (e_lz e) - pidx e) + len).
+  Proof.
+    intros W. induction fuel as [|f IH]; intros ps e len off tr (I & F & Q & A0) Hlen Hcap Hfuel; [lia|].
+    cbn [l1_write_loop].
+    destruct (Z.leb_spec len 0) as [Hz|Hpos].
+    { cbn [okor]. assert (len = 0) by lia. subst len.
+      split; [split; [exact I|split; [exact F|split; [exact Q|exact A0]]]|]. split; [lia|]. split; lia. }
+    eapply okor_bind; [apply (fill_step p org e tr len W I F Hlen)|].
+    intros [[d1 used] tr1]. fold (after_fill e d1).
+    intros (I1 & F1 & U1 & L1 & Un1 & Rc1 & Wn1 & Bw1 & Hprog & _ & Ab1 & Fl1).
+    assert (Hu : 1 <= used) by (apply Hprog; [exact Q|lia]).
+    assert (Hcap1 : cap (after_fill e d1)) by (unfold cap; rewrite Un1; lia).
+    eapply okor_bind; [apply (encode_for_lzma1_spec p org ps _ tr1 W I1 Hcap1)|].
+    intros [[e2 ps2] tr2] (I2 & C2 & Q2 & Y1 & Y1' & Y2 & Y3 & Y4 & Y5 & Y6 & Y9 & Y8 & YA).
+    assert (F2 : phi p e2).
+    { destruct F1 as [G1 G2 G3 G4]. constructor.
+      - congruence.
+      - right; exact Q2.
+      - destruct (Z_le_dec (read_limit (e_lz (after_fill e d1))) (pidx (after_fill e d1) - 1)) as [Hq|Hnq].
+        + destruct (Y9 Hq) as (E1 & _ & _). subst e2. exact G3.
+        + assert (NQ : ~ quiet (after_fill e d1)) by (unfold quiet; lia).
+          destruct (phi_consult_nopend p org _ tr1 W I1 (mkPhi _ _ G1 G2 G3 G4) NQ) as [Hst Hp0].
+          rewrite (Y8 G1 Hst Hp0). lia.
+      - rewrite Y2, Y3. exact G4. }
+    eapply okor_weaken.
+    { apply (IH ps2 e2 (len - used) (off + used) tr2).
+      - split; [exact I2|]. split; [exact F2|]. split; [exact Q2|]. congruence.
+      - lia.
+      - rewrite Y6, Y2. lia.
+      - lia. }
+    intros [[[e3 ps3] off3] tr3] (L3 & O3 & S3 & C3).
+    pose proof (ei_fill _ _ _ _ I2) as Hf2. pose proof (ei_fill _ _ _ _ I1) as Hf1.
+    split; [exact L3|]. split; [lia|]. split; [lia|]. rewrite C3, Y6, Y2. lia.
+  Qed.
+
+  (* the state of an LZMAWriter between calls, tied to what has been written *)
+  Record l1ok (s : l1st PS) (p : lzp) (org : Z) : Prop := mkL1ok {
+    lo_p : l1_p _ s = p;
+    lo_inv : l1inv p org (l1_e _ s) (l1_tr _ s);
+    lo_cur : l1_cur _ s = sum_fill (l1_tr _ s);          (* current_uncompressed_size = bytes accepted *)
+    lo_org : org <= 0;                                    (* - (preset dictionary bytes in the window) *)
+    lo_nn : 0 <= sum_fill (l1_tr _ s)
+  }.
+
+  Lemma einv_cap_bound p org e tr : einv p org e tr ->
+    unc_size e + (write_pos (e_lz e) - pidx e) <= sum_fill tr - org.
+  Proof.
+    intros I. pose proof (ei_fill _ _ _ _ I). pose proof (ei_chunk _ _ _ _ I). pose proof (ei_org _ _ _ _ I).
+    rewrite logical_pidx in *. lia.
+  Qed.
+
+  Lemma l1_write_spec p org s n : wf_p p -> l1ok s p org -> 0 <= n <= I32_MAX ->
+    sum_fill (l1_tr _ s) - org + n <= U32_MAX ->
+    okor (l1_write PS parse s n) (fun r =>
+      let '(s1, res) := r in
+      if (match l1_exp _ s with Some ex => ex <? l1_cur _ s + n | None => false end)
+      then s1 = s /\ res = RErr E_INVALID_INPUT
+      else l1ok s1 p org /\ res = RWrote n /\ l1_exp _ s1 = l1_exp _ s /\
+           sum_fill (l1_tr _ s1) = sum_fill (l1_tr _ s) + n).
+  Proof.
+    intros W [Hp Hinv Hcur Horg Hnn] Hn Hcap. unfold l1_write.
+    pose proof Hinv as (I & F & Q & A0).
+    assert (Hcur64 : 0 <= l1_cur _ s + n <= U64_MAX).
+    { rewrite Hcur. unfold U64_MAX, U32_MAX, I32_MAX in *. lia. }
+    assert (Htest : (match l1_exp PS s with
+                     | Some ex => do t <- ck_u64 (l1_cur PS s + n); Ok (ex <? t)
+                     | None => Ok false end) =
+                    Ok (match l1_exp _ s with Some ex => ex <? l1_cur _ s + n | None => false end)).
+    { destruct (l1_exp PS s); [rewrite ck_u64_ok by exact Hcur64; reflexivity|reflexivity]. }
+    rewrite Htest.
+    destruct (match l1_exp _ s with Some ex => ex <? l1_cur _ s + n | None => false end).
+    { cbn [okor]. split; reflexivity. }
+    rewrite ck_u64_ok by exact Hcur64. cbn [obind].
+    rewrite Hp.
+    eapply okor_bind.
+    { apply (l1_write_loop_spec p org W (write_fuel n) (l1_ps _ s) (l1_e _ s) n 0 (l1_tr _ s) Hinv Hn).
+      - pose proof (einv_cap_bound _ _ _ _ I). lia.
+      - unfold write_fuel. lia. }
+    intros [[[e1 ps1] off1] tr1] (L1 & O1 & S1 & C1). cbn [okor].
+    split.
+    { constructor; cbn [l1_p l1_e l1_tr l1_cur]; try assumption; try reflexivity; try lia. }
+    split; [f_equal; lia|]. split; [reflexivity|]. exact S1.
+  Qed.
+
+  Lemma l1_finish_spec p org s : wf_p p -> l1ok s p org -> sum_fill (l1_tr _ s) - org <= U32_MAX ->
+    okor (l1_finish PS parse s) (fun r =>
+      let '(s1, res) := r in
+      if (match l1_exp _ s with Some ex => negb (ex =? l1_cur _ s) | None => false end)
+      then s1 = s /\ res = RErr E_INVALID_INPUT
+      else res = RDone /\ sum_fill (l1_tr _ s1) = sum_fill (l1_tr _ s) /\
+           sum_sym (l1_tr _ s1) = sum_fill (l1_tr _ s1) /\ sum_abs (l1_tr _ s1) = 0 /\
+           l1_cur _ s1 = l1_cur _ s /\ l1_exp _ s1 = l1_exp _ s).
+  Proof.
+    intros W [Hp Hinv Hcur Horg Hnn] Hcap. unfold l1_finish.
+    pose proof Hinv as (I & F & Q & A0).
+    destruct (match l1_exp _ s with Some ex => negb (ex =? l1_cur _ s) | None => false end).
+    { cbn [okor]. split; reflexivity. }
+    rewrite Hp.
+    eapply okor_bind; [apply (set_finishing_spec p _ (l1_tr _ s) W (ei_lz _ _ _ _ I))|].
+    intros [d1 tr1]. cbn [fst snd]. intros (L1 & R1 & Wp1 & Rl1 & Fin1 & Acc & Pcase).
+    injection Acc as E1 E2 E3 E4.
+    pose proof I as [[[Ha Hb] Hc [Hd He] [Hf Hg] Hpb] [Hr1 Hr2] Hmb [Hb1 Hb2] Hh Hdict Hpx Hu HU Hfill Hsym Hchunk Horg'].
+    assert (I1 : einv p org (with_lz (l1_e _ s) d1) tr1).
+    { constructor; unfold with_lz, pidx, logical_pos in *; cbn [e_lz read_ahead unc_size g_base rc_full]; try rewrite R1; try rewrite Wp1;
+        try assumption; try lia.
+      intros Hp0. destruct Pcase as [[Pq Pn]|[P1 P2]].
+      + right; right. lia.
+      + left; exact P2. }
+    assert (C1 : cap (with_lz (l1_e _ s) d1)).
+    { pose proof (einv_cap_bound _ _ _ _ I1). unfold cap. rewrite E2 in H. lia. }
+    eapply okor_bind; [apply (encode_for_lzma1_spec p org (l1_ps _ s) _ tr1 W I1 C1)|].
+    intros [[e2 ps2] tr2] (I2 & C2 & Q2 & Y1 & Y1' & Y2 & Y3 & Y4 & Y5 & Y6 & Y9 & Y8 & YA).
+    cbn [okor l1_tr l1_cur l1_exp sum_fill sum_sym sum_abs].
+    split; [reflexivity|].
+    pose proof (ei_fill _ _ _ _ I2) as Hf2. pose proof (ei_sym _ _ _ _ I2) as Hs2.
+    pose proof (ei_fill _ _ _ _ I1) as Hf1.
+    pose proof (ei_lz _ _ _ _ I2) as [[Ha2 Hb2'] Hc2 [Hd2 He2] [Hf2' Hg2] Hpb2]. pose proof (ei_ra _ _ _ _ I2) as [Hr12 Hr22].
+    unfold quiet in Q2. rewrite Y3 in Q2. unfold with_lz in Q2 at 1. cbn [e_lz] in Q2. rewrite Rl1 in Q2.
+    unfold with_lz in Y2, Y5. cbn [e_lz g_base] in Y2, Y5.
+    rewrite logical_pidx in Hs2. unfold pidx in *.
+    split; [lia|]. split; [lia|]. split; [lia|]. split; reflexivity.
   Qed.
 
 End Oracle.
